@@ -11,9 +11,21 @@ import (
 )
 
 type reg64 struct {
-	Name string
-	B    *roaring64.Bitmap
-	M    *model.Set64
+	Name  string
+	B     *roaring64.Bitmap
+	M     *model.Set64
+	Third *reg64 // a third operand for the three-way creations (set on register a by the scenario)
+}
+
+// third64 is the third operand of the three-way aggregates: buckets 0, 3 and 7, so that it brings keys below,
+// between and above the keys of the other operands (ParOr then inserts its buckets into a partial result).
+func third64() *reg64 {
+	r := &reg64{Name: "c", B: roaring64.New(), M: model.New64()}
+	for _, v := range []uint64{5, 70000, 3<<32 + 1, 3<<32 + 65536, 7<<32 + 9} {
+		r.B.Add(v)
+		r.M.Add(v)
+	}
+	return r
 }
 
 // bucketWrites writes into every bucket any register holds: first present value removed, first absent value added.
@@ -69,23 +81,24 @@ func observe64(regs []*reg64, after string) *ev.Fail {
 }
 
 type creation64 struct {
-	Name string
-	F    func(a, b *reg64) (*roaring64.Bitmap, *model.Set64, *ev.Fail)
+	Name  string
+	F     func(a, b *reg64) (*roaring64.Bitmap, *model.Set64, *ev.Fail)
+	Three bool // uses a.Third
 }
 
 func creations64() []creation64 {
-	cs := []creation64{{"Clone(a)", func(a, b *reg64) (*roaring64.Bitmap, *model.Set64, *ev.Fail) { return a.B.Clone(), a.M.Clone(), nil }}}
+	cs := []creation64{{Name: "Clone(a)", F: func(a, b *reg64) (*roaring64.Bitmap, *model.Set64, *ev.Fail) { return a.B.Clone(), a.M.Clone(), nil }}}
 	for _, op := range binOps64 {
 		op := op
-		cs = append(cs, creation64{op.Name + "(a,b)", func(a, b *reg64) (*roaring64.Bitmap, *model.Set64, *ev.Fail) {
+		cs = append(cs, creation64{Name: op.Name + "(a,b)", F: func(a, b *reg64) (*roaring64.Bitmap, *model.Set64, *ev.Fail) {
 			return op.Static(a.B, b.B), op.Model(a.M, b.M), nil
-		}}, creation64{"a." + op.Name + "(b)", func(a, b *reg64) (*roaring64.Bitmap, *model.Set64, *ev.Fail) {
+		}}, creation64{Name: "a." + op.Name + "(b)", F: func(a, b *reg64) (*roaring64.Bitmap, *model.Set64, *ev.Fail) {
 			op.InPlace(a.B, b.B)
 			return nil, op.Model(a.M, b.M), nil
 		}})
 	}
 	vari := func(name string, f func(...*roaring64.Bitmap) *roaring64.Bitmap, mf func(a, b *model.Set64) *model.Set64, single bool) creation64 {
-		return creation64{name, func(a, b *reg64) (*roaring64.Bitmap, *model.Set64, *ev.Fail) {
+		return creation64{Name: name, F: func(a, b *reg64) (*roaring64.Bitmap, *model.Set64, *ev.Fail) {
 			args := []*roaring64.Bitmap{a.B, b.B}
 			want := mf(a.M, b.M)
 			if single {
@@ -105,16 +118,38 @@ func creations64() []creation64 {
 			return out, want, nil
 		}}
 	}
+	// three-way: order gives the positions of a, b and the third operand c
+	vari3 := func(name string, f func(...*roaring64.Bitmap) *roaring64.Bitmap, order string) creation64 {
+		return creation64{Name: name, Three: true, F: func(a, b *reg64) (*roaring64.Bitmap, *model.Set64, *ev.Fail) {
+			c := a.Third
+			var args []*roaring64.Bitmap
+			for _, ch := range order {
+				args = append(args, map[rune]*roaring64.Bitmap{'a': a.B, 'b': b.B, 'c': c.B}[ch])
+			}
+			want := model.Or64(model.Or64(a.M, b.M), c.M)
+			saved := append([]*roaring64.Bitmap(nil), args...)
+			out := f(args...)
+			for i := range saved {
+				if args[i] != saved[i] {
+					return nil, nil, fail(name, "caller-slice-modified", "%s modified the caller's argument slice", name)
+				}
+				if out == saved[i] {
+					return nil, nil, fail(name, "returns-input", "%s returned one of its input bitmaps itself instead of an independent bitmap", name)
+				}
+			}
+			return out, want, nil
+		}}
+	}
 	parOr := func(n int) func(...*roaring64.Bitmap) *roaring64.Bitmap {
 		return func(bs ...*roaring64.Bitmap) *roaring64.Bitmap { return roaring64.ParOr(n, bs...) }
 	}
 	cs = append(cs,
-		creation64{"Flip(a, inside bucket)", func(a, b *reg64) (*roaring64.Bitmap, *model.Set64, *ev.Fail) {
+		creation64{Name: "Flip(a, inside bucket)", F: func(a, b *reg64) (*roaring64.Bitmap, *model.Set64, *ev.Fail) {
 			m := a.M.Clone()
 			m.FlipRange(10, 20)
 			return roaring64.Flip(a.B, 10, 20), m, nil
 		}},
-		creation64{"Flip(a, beyond)", func(a, b *reg64) (*roaring64.Bitmap, *model.Set64, *ev.Fail) {
+		creation64{Name: "Flip(a, beyond)", F: func(a, b *reg64) (*roaring64.Bitmap, *model.Set64, *ev.Fail) {
 			m := a.M.Clone()
 			m.FlipRange(9<<32, 9<<32+5)
 			return roaring64.Flip(a.B, 9<<32, 9<<32+5), m, nil
@@ -126,6 +161,12 @@ func creations64() []creation64 {
 		vari("ParOr(2,a,b)", parOr(2), model.Or64, false),
 		vari("ParOr(2,a)", parOr(2), model.Or64, true),
 		vari("ParOr(0,a,b)", parOr(0), model.Or64, false),
+		vari3("ParOr(1,a,b,c)", parOr(1), "abc"),
+		vari3("ParOr(2,a,b,c)", parOr(2), "abc"),
+		vari3("ParOr(1,c,a,b)", parOr(1), "cab"),
+		vari3("ParOr(1,a,c,b)", parOr(1), "acb"),
+		vari3("FastOr(a,b,c)", roaring64.FastOr, "abc"),
+		vari3("FastOr(c,a,b)", roaring64.FastOr, "cab"),
 	)
 	return cs
 }
@@ -137,24 +178,44 @@ func c07Scenario64(c *Ctx) explore.Scenario {
 		pool = []recipe64{pool[0], pool[1], pool[3], pool[4], pool[5], pool[7], pool[10], pool[12]}
 	}
 	crs := creations64()
-	const maxWrites = 14
-	return &explore.Product{Name: "64-bit: inputs^2 x creation x cow switch x (register, write)", Dims: []int{len(pool), len(pool), len(crs), 3, 3, maxWrites}, Deadline: c.Budget(118, 1790),
+	maxWrites := 20
+	if c.Quick() {
+		// quick: three of the six three-way creations, the first 12 writes
+		var keep []creation64
+		for _, cr := range crs {
+			if cr.Three && cr.Name != "ParOr(1,a,b,c)" && cr.Name != "ParOr(1,a,c,b)" && cr.Name != "FastOr(a,b,c)" {
+				continue
+			}
+			keep = append(keep, cr)
+		}
+		crs, maxWrites = keep, 12
+	}
+	return &explore.Product{Name: "64-bit: inputs^2 x creation x cow switch x (register, write)", Dims: []int{len(pool), len(pool), len(crs), 3, 4, maxWrites}, Deadline: c.Budget(118, 1790),
 		Run: func(idx []int) (string, *ev.Fail) {
 			aw, bw := pool[idx[0]].Build(), pool[idx[1]].Build()
-			a, b := &reg64{"a", aw.B, aw.M}, &reg64{"b", bw.B, bw.M}
+			a, b := &reg64{Name: "a", B: aw.B, M: aw.M}, &reg64{Name: "b", B: bw.B, M: bw.M}
 			switch idx[3] {
 			case 1:
 				a.B.SetCopyOnWrite(true)
 				b.B.SetCopyOnWrite(true)
 			}
 			cr := crs[idx[2]]
+			regs := []*reg64{a, b}
+			if cr.Three {
+				a.Third = third64()
+				if idx[3] == 1 {
+					a.Third.B.SetCopyOnWrite(true)
+				}
+				regs = append(regs, a.Third)
+			} else if idx[4] == 3 {
+				return "no-third-operand", nil
+			}
 			out, om, f := cr.F(a, b)
 			if f != nil {
 				return "", f
 			}
-			regs := []*reg64{a, b}
 			if out != nil {
-				regs = append(regs, &reg64{"result", out, om})
+				regs = append(regs, &reg64{Name: "result", B: out, M: om})
 			} else {
 				a.M = om
 			}
@@ -169,9 +230,11 @@ func c07Scenario64(c *Ctx) explore.Scenario {
 			if idx[5] >= len(ws) {
 				return "no-such-write", nil
 			}
-			t := regs[len(regs)-1]
+			t := regs[len(regs)-1] // idx[4] == 2: the newest bitmap (the result, or a after an in-place creation)
 			if idx[4] < 2 {
 				t = regs[idx[4]]
+			} else if idx[4] == 3 {
+				t = a.Third
 			}
 			what := ws[idx[5]](t)
 			if f := observe64(regs, cr.Name+"; "+t.Name+"."+what); f != nil {
